@@ -87,3 +87,124 @@ pub fn replay_passes(path: &str, out: &mut impl Write) -> (u64, u64) {
     }
     (n, bad)
 }
+
+/// Multi-line literal behaviours of MC_MLString: {"text": literal, "qualifies", "impl", "lf4", "crlf4"}.
+/// The literal is embedded at top level (`x := <literal>;`, where the continuation indentation is four spaces) and in
+/// deeper places; exact agreement with the model is a fidelity matter, the C12 / C01 monitors decide violations.
+pub fn replay_mlstring(path: &str, out: &mut impl Write) -> (u64, u64) {
+    use crate::mon::*;
+    let f = std::io::BufReader::new(std::fs::File::open(path).expect("behaviours file"));
+    let (mut n, mut bad) = (0u64, 0u64);
+    let mk = |fms: bool, crlf: bool, tabs: bool| Cfg { format_multiline_strings: fms, line_ending: if crlf { "crlf".into() } else { "lf".into() }, use_tabs: tabs, ..Cfg::default() };
+    let cfgs = [mk(true, false, false), mk(true, true, false), mk(false, false, false), mk(true, false, true)];
+    let fmts: Vec<_> = cfgs.iter().map(|c| c.formatter()).collect();
+    for line in f.lines() {
+        let line = line.unwrap();
+        if line.trim().is_empty() {
+            continue;
+        }
+        let v: Value = serde_json::from_str(&line).expect("behaviour json");
+        let lit = text_of(&v["text"]);
+        n += 1;
+        let placements = [format!("x := {lit};\n"), format!("begin\n  Foo({lit}, 1);\nend;\n"), format!("x := procedure begin if a then y := {lit} + z; end;\n")];
+        for (pi, text) in placements.iter().enumerate() {
+            let Ok(tin) = lex(text) else { continue };
+            if tin.iter().filter(|t| t.kind == "TextLiteral(MultiLine)").count() != 1 {
+                continue;
+            }
+            for (ci, cfg) in cfgs.iter().enumerate() {
+                let res = fmt(&fmts[ci], text);
+                let o = match res {
+                    Ok(o) => o,
+                    Err(p) => {
+                        bad += 1;
+                        let _ = writeln!(out, "{}", json!({"t": "viol", "prop": "C04", "clause": "panic", "detail": p, "text": text}));
+                        continue;
+                    }
+                };
+                let Ok(tout) = lex(&o) else { continue };
+                let mut viols: Vec<Viol> = vec![];
+                if let Some(x) = c01(text, &tin, &o) {
+                    viols.push(x);
+                }
+                let (vs, _) = c12(text, &tin, &o, &tout, cfg, &[false]);
+                viols.extend(vs);
+                if let Some(x) = c02(text, &tin, &o, &tout, cfg.format_multiline_strings) {
+                    viols.push(x);
+                }
+                for x in &viols {
+                    bad += 1;
+                    let _ = writeln!(out, "{}", json!({"t": "viol", "prop": x.prop, "clause": x.clause, "detail": x.detail, "text": text, "cfg": cfg, "literal": v["text"]}));
+                }
+                // fidelity: the exact text the model predicts (top-level placement, space indentation)
+                if pi == 0 && ci < 3 && viols.is_empty() {
+                    let want = match ci { 0 => text_of(&v["lf4"]), 1 => text_of(&v["crlf4"]), _ => lit.clone() };
+                    let got = tout.iter().find(|t| t.kind == "TextLiteral(MultiLine)").map(|t| t.text(&o).to_string());
+                    if got.as_deref() != Some(want.as_str()) {
+                        let _ = writeln!(out, "{}", json!({"t": "drift", "module": "MLString", "text": text, "cfg": cfg, "spec": want, "impl": got}));
+                    }
+                }
+            }
+        }
+    }
+    (n, bad)
+}
+
+/// Comment / directive behaviours of MC_Comment: {"text": token, "norm": normalised token}. The token stands alone in
+/// the file; the property-level monitors (C01, C02) decide violations, exact disagreement with the model is fidelity.
+pub fn replay_comment(path: &str, out: &mut impl Write) -> (u64, u64) {
+    use crate::mon::*;
+    let f = std::io::BufReader::new(std::fs::File::open(path).expect("behaviours file"));
+    let (mut n, mut bad) = (0u64, 0u64);
+    let cfg = Cfg::default();
+    let fmtr = cfg.formatter();
+    for line in f.lines() {
+        let line = line.unwrap();
+        if line.trim().is_empty() {
+            continue;
+        }
+        let v: Value = serde_json::from_str(&line).expect("behaviour json");
+        let tok = text_of(&v["text"]);
+        let norm = text_of(&v["norm"]);
+        n += 1;
+        for text in [format!("{tok}\n"), format!("x := 1; {tok}\ny;\n")] {
+            let Ok(tin) = lex(&text) else { continue };
+            let o = match fmt(&fmtr, &text) {
+                Ok(o) => o,
+                Err(p) => {
+                    bad += 1;
+                    let _ = writeln!(out, "{}", json!({"t": "viol", "prop": "C04", "clause": "panic", "detail": p, "text": text}));
+                    continue;
+                }
+            };
+            let Ok(tout) = lex(&o) else { continue };
+            let mut viols: Vec<Viol> = vec![];
+            if let Some(x) = c01(&text, &tin, &o) {
+                viols.push(x);
+            }
+            if let Some(x) = c02(&text, &tin, &o, &tout, true) {
+                viols.push(x);
+            }
+            // formatting again changes nothing
+            if let Ok(o2) = fmt(&fmtr, &o) {
+                if o2 != o {
+                    viols.push(Viol { prop: "C03", clause: "idempotent", detail: format!("{:?} -> {:?} -> {:?}", text, o, o2) });
+                }
+            }
+            for x in &viols {
+                bad += 1;
+                let _ = writeln!(out, "{}", json!({"t": "viol", "prop": x.prop, "clause": x.clause, "detail": x.detail, "text": text}));
+            }
+            if viols.is_empty() {
+                // the token as the scanner sees it in the input must be the model's token, and its normal form the model's
+                let idx = tin.iter().position(|t| t.text(&text) == tok);
+                if let Some(i) = idx {
+                    if tin.len() == tout.len() && tout[i].text(&o) != norm {
+                        let _ = writeln!(out, "{}", json!({"t": "drift", "module": "Comment", "text": text, "spec": norm, "impl": tout[i].text(&o)}));
+                    }
+                }
+            }
+        }
+    }
+    (n, bad)
+}
